@@ -14,8 +14,10 @@ from emmet import expand
 ID = 'C20'
 
 KINDS = ('snippets', 'options', 'variables')
-TYPES = {'markup': ['html', 'xml', 'xsl', 'jsx', 'js', 'pug', 'slim', 'haml', 'vue', 'svelte', 'xhtml', 'nosuch', 'zz-syntax'],
-         'stylesheet': ['css', 'sass', 'scss', 'less', 'sss', 'stylus', 'nosuch', 'zz-syntax']}
+# None = no `syntax` key in the call config: the default syntax of the type (html / css) applies
+TYPES = {'markup': ['html', 'xml', 'xsl', 'jsx', 'js', 'pug', 'slim', 'haml', 'vue', 'svelte', 'xhtml', 'nosuch', 'zz-syntax', None],
+         'stylesheet': ['css', 'sass', 'scss', 'less', 'sss', 'stylus', 'nosuch', 'zz-syntax', None]}
+DEFAULT_SYNTAX = {'markup': 'html', 'stylesheet': 'css'}
 KEYS = {
     'snippets': ['!!!', 'a', 'tm', 'zz', 'p', 'bd'],
     'options': ['output.selfClosingStyle', 'stylesheet.after', 'stylesheet.between', 'jsx.enabled', 'markup.attributes',
@@ -87,6 +89,9 @@ def marker(kind, key, layer, typ):
 
 def build(typ, syn, kind, key, subset):
     user = {'type': typ, 'syntax': syn}
+    if syn is None:
+        del user['syntax']
+        syn = DEFAULT_SYNTAX[typ]
     glob = {}
     for layer in subset:
         val = marker(kind, key, layer, typ)
@@ -105,6 +110,8 @@ def build(typ, syn, kind, key, subset):
 def fold(typ, syn, kind, user, glob):
     "the documented order, lowest first"
     T = TABLES0
+    if syn is None:
+        syn = DEFAULT_SYNTAX[typ]
     res = {}
     for layer in (T['DEFAULT_CONFIG'].get(kind, {}), T['SYNTAX_CONFIG'].get(typ, {}).get(kind, {}),
                   T['SYNTAX_CONFIG'].get(syn, {}).get(kind, {}), glob.get(typ, {}).get(kind, {}),
@@ -115,6 +122,8 @@ def fold(typ, syn, kind, user, glob):
 
 def defining_layers(typ, syn, kind, key, subset):
     T = TABLES0
+    if syn is None:
+        syn = DEFAULT_SYNTAX[typ]
     n = 0
     for layer in (T['DEFAULT_CONFIG'].get(kind, {}), T['SYNTAX_CONFIG'].get(typ, {}).get(kind, {}),
                   T['SYNTAX_CONFIG'].get(syn, {}).get(kind, {})):
@@ -128,7 +137,8 @@ def probe(typ, kind, key):
     if kind == 'snippets':
         return key if key not in ('!!!',) or typ == 'markup' else None
     if kind == 'variables':
-        return 'x[lang=${%s}]' % key if typ == 'markup' else None
+        # the variable written directly in the abbreviation, and variables used inside snippet bodies (built-in `doc`: lang, charset)
+        return 'x[lang=${%s}]+doc' % key if typ == 'markup' else None
     if typ == 'markup' and key in ('output.newline', 'output.indent'):
         return 'x>y'
     if typ == 'markup' and key == 'markup.attributes':
